@@ -304,7 +304,7 @@ func runC19(c *Ctx) {
 					bodyCalls = append(bodyCalls, x)
 				}
 			case *ssa.MapUpdate:
-				if sf, ok := loadedField(x.Map); ok && sf.Is("stackFrame", "locals") {
+				if sf, ok := loadedField(x.Map); ok && isFrameLocals(sf) {
 					bindStore = x
 				}
 			}
